@@ -9,7 +9,7 @@ VARIABLES l, viol
 ovars == <<l, viol>>
 ClientOps == {"UploadSegment", "UploadIndex", "DeleteSegment", "DeleteIndex", "DownloadSegment", "DownloadIndex", "ListSegments", "EnsureBucket"}
 P(e) == INSTANCE DualS3Props WITH
-      last <- [op |-> e.ev, k |-> e.k, rng |-> e.rng, ok |-> e.ok, bytes |-> e.bytes, listed |-> e.listed, calls |-> e.calls],
+      last <- [op |-> e.ev, k |-> e.k, rng |-> e.rng, ok |-> e.ok, bytes |-> e.bytes, listed |-> e.listed, calls |-> e.calls, alive |-> e.alive],
       want <- e.want, once <- e.once
 OInit == l = 0 /\ viol = {}
 Step ==
